@@ -58,26 +58,13 @@ func stripFaults(p *plan.Plan) *plan.Plan {
 		for si := range q.Writers[wi].Sinks {
 			q.Writers[wi].Sinks[si].Faults = nil
 		}
-		for oi := range q.Writers[wi].Ops {
-			q.Writers[wi].Ops[oi].SrcFaults = nil
-		}
+
 	}
 	if q.Sched.Policy == "explicit" {
 		q.Sched.Policy = "random"
 		q.Sched.Choices = nil
 	}
 	return q
-}
-
-func hasSrcFaults(p *plan.Plan) bool {
-	for _, w := range p.Writers {
-		for _, o := range w.Ops {
-			if len(o.SrcFaults) > 0 {
-				return true
-			}
-		}
-	}
-	return false
 }
 
 func sinksOf(out *Outcome) [][][]byte {
@@ -125,8 +112,11 @@ func expand(ex *Executor, p *plan.Plan, res *Result, agg *Agg) []*plan.Plan {
 	var cases []*plan.Plan
 	switch e.Kind {
 	case "sinkfail":
-		if p.Twin && !hasSrcFaults(p) {
-			// the base run is the fault-free twin: no need to execute it again
+		if p.Twin {
+			// the base run is the twin (no sink faults): no need to execute it
+			// again. Faults of a ReadFrom source stay in the twin: they decide
+			// how much input each call consumes, and "fault-free" here means
+			// free of sink faults.
 			twinKey, twinSinks = stripFaults(p).Hash(), sinksOf(out)
 		}
 		wo := out.W[idx]
